@@ -23,7 +23,8 @@ WallOnly(lv) == << -3 >> \o lv     \* local time: only the wall-clock reading is
 \* decoded to the denoted values; for the others the decoder may accept or
 \* refuse (verdict Either).
 CompatField(m, n, b, sz) ==
-    IF ~NamedBase(b) \/ sz = 0 THEN FALSE
+    IF ~NamedBase(b) THEN FALSE
+    ELSE IF sz = 0 THEN b = 7 /\ (~HasField(m, n) \/ (PF(m, n).k = 0 /\ PF(m, n).b = 7))   \* an empty string field carries nothing
     ELSE LET i == IdxOf(b) IN
          IF ~HasField(m, n) THEN sz % SizeOf(i) = 0
          ELSE LET p == PF(m, n) IN
